@@ -19,6 +19,7 @@ type caseSpec struct {
 	Anchor     string `json:"anchor"`   // call | ready | create (deadline: measured from the creation of the context)
 	DelayMs    int    `json:"delay_ms"` // stop issued DelayMs after the anchor
 	Pipes      string `json:"pipes"`    // "held by descendant" | "released by descendants"
+	Directed   bool   `json:"directed,omitempty"`
 }
 
 func (c caseSpec) canonical() string {
@@ -220,6 +221,16 @@ func genCases(r *vrun.Run) []caseSpec {
 			c.Pipes = "held by descendant"
 		}
 		pickInstant(&c, instant, rng)
+		out = append(out, c)
+	}
+	// Directed cases, present in every run (every seed, both tiers), first in the list so that their wait
+	// for the bound G overlaps with the rest: the command exits at once while one background child keeps
+	// the pipes, the call is still in progress, the context is cancelled 50 ms after readiness (the root
+	// has exited and been reaped by then). They exercise the classes recorded in known_findings.json.
+	for _, start := range []string{"Execute", "Supervisor"} {
+		c := caseSpec{Index: len(out), Start: start, Stop: "context-cancel", ShapeClass: "parent exits first",
+			Shape: &node{F: "x", K: []*node{leaf("h")}}, Anchor: "ready", DelayMs: 50, Pipes: "held by descendant", Directed: true}
+		c.ShapeText = c.Shape.String()
 		out = append(out, c)
 	}
 	if r.Quick() {
